@@ -1,11 +1,14 @@
 import GwbVerif.Properties.C03
 import GwbVerif.Properties.C03Adiabat
+import GwbVerif.Properties.C03TwoD
 open Gwb
 #print axioms C03_background
 #print axioms C03_forced_surface
 #print axioms C03_adiabat_formula
 #print axioms C03_adiabat_surface_and_monotone
+#print axioms C03_background_2d_partial
 #check @C03_background
 #check @C03_forced_surface
 #check @C03_adiabat_formula
 #check @C03_adiabat_surface_and_monotone
+#check @C03_background_2d_partial
